@@ -18,7 +18,8 @@ T = TapeRecorder
 KINDS = ['op_ok', 'op_raises', 'op_interrupt', 'op_interrupt_in_body', 'op_discarded', 'op_discard_in_body', 'op_sampled_out',
          'op_capture_failure', 'op_save_failure', 'op_forced', 'op_threaded', 'op_extractor_raises', 'op_forced_then_discarded',
          'op_disables_recording_midway', 'op_outputs_then_discarded', 'op_discard_abort_raises',
-         'replay_ok', 'replay_missing_id', 'replay_missing_key', 'replay_fn_raises', 'replay_interrupted', 'replay_raises_in_op']
+         'replay_ok', 'replay_missing_id', 'replay_missing_key', 'replay_fn_raises', 'replay_interrupted', 'replay_raises_in_op',
+         'replay_recording_without_duration']
 
 META = {
     'engine': 'recplay',
@@ -329,6 +330,13 @@ def history_item(run, tape, kind, recorder, spy, store, base_spec, base):
         spec.body.insert(tape.draw(len(spec.body) + 1), ['interrupt'])
     elif kind == 'replay_raises_in_op':
         spec.body.insert(tape.draw(len(spec.body) + 1), ['raise', R.D.ErrB])
+    elif kind == 'replay_recording_without_duration':
+        # a recording that was stored straight through the cassette (or by an older version): no duration metadata
+        raw = spy.inner.create_new_recording(base_spec.op.name)
+        raw.set_data('k', 1)
+        raw.add_metadata({'note': 'no framework metadata'})
+        spy.inner.save_recording(raw)
+        rec_id = raw.id
     elif kind == 'replay_fn_raises':
         fn_raises = tape.choice(['before', 'after'])
     if fn_raises:
